@@ -82,6 +82,10 @@ def gen_stream(rng, response, lax):
             msgs[i] = msgs[i][:j + 1] + b"Connection: close\r\n" + msgs[i][j + 1:]
         stray = lambda: rng.choice([b"\r\n", b"\r\n", b"\r\n\r\n", b"\n", b"\r", b" ", b"\r\n \r\n", b"\n\r", b"0\r\n\r\n", b""])
         tail = rng.choice([b"\r\n", b"\r\n", b"\r\n\r\n", b"\r\n\r\n\r\n"]) if rng.random() < 0.6 else stray()
+        # runs of empty lines of any length, in front of the first message too (nothing counts them per read)
+        run = lambda: (b"\n" if lax and rng.random() < 0.5 else b"\r\n") * rng.choice([0, 0, 1, 2, 4, 5, 6, 9, 17, 40])
+        if rng.random() < 0.5:
+            return run() + b"".join(m + run() for m in msgs), kind
         return b"".join(m + stray() for m in msgs[:-1]) + msgs[-1] + tail, kind
     data = b"".join(msgs)
     if rng.random() < 0.55:
